@@ -23,10 +23,11 @@ type gStructVal struct {
 
 // gArrVal: an array value loaded from an array object
 type gArrVal struct {
-	obj int
-	at  int
-	n   int
-	esz int
+	obj  int
+	at   int
+	n    int
+	esz  int
+	base int64
 }
 
 type gRep struct {
@@ -436,6 +437,13 @@ func (d *protoDom) storeStruct(st *sState, dst string, v gStructVal) {
 	if st.gfields == nil {
 		st.gfields = map[string]sVal{}
 	}
+	if sw, ok := st.gfields[v.from+".#"].(gArr); ok {
+		if dw, ok := st.gfields[dst+".#"].(gArr); ok && dw.n == sw.n {
+			// both are single-allocation byte structs: one copy of the whole
+			st.geff = append(st.geff, gEffect{kind: "copy", obj: dw.obj, off: pC(0), n: pC(int64(sw.n)), srcObj: sw.obj, srcOff: pC(0), srcIdx: v.at, hasSrcIdx: true})
+			return
+		}
+	}
 	for _, f := range d.structFieldKeys("", v.t) {
 		srcKey, dstKey := v.from+f.key, dst+f.key
 		i := strings.LastIndex(srcKey, ".")
@@ -445,7 +453,7 @@ func (d *protoDom) storeStruct(st *sState, dst string, v gStructVal) {
 			id := d.newGObj(st, dstKey, pC(int64(x.n*x.esz)), true)
 			h := d.gobj(st, id)
 			h.snapObj, h.snapIdx, h.hasSnap = x.obj, v.at, true
-			st.gfields[dstKey] = gArr{id, x.n, x.esz}
+			st.gfields[dstKey] = gArr{id, x.n, x.esz, 0}
 		default:
 			st.gfields[dstKey] = sv
 		}
@@ -462,14 +470,30 @@ func (d *protoDom) streamStep(st *sState, in ssa.Instruction) bool {
 		case *ssa.UnOp:
 			if v, ok := e.get(st, x.X).(gArr); ok && x.Op == token.MUL {
 				if _, ok := x.Type().Underlying().(*types.Array); ok {
-					st.vals[x] = gArrVal{v.obj, len(st.geff), v.n, v.esz}
+					st.vals[x] = gArrVal{v.obj, len(st.geff), v.n, v.esz, v.base}
+					return true
+				}
+			}
+			if rv, ok := e.get(st, x.X).(gRecv); ok && x.Op == token.MUL {
+				if stt, ok := x.Type().Underlying().(*types.Struct); ok {
+					st.vals[x] = gStructVal{from: rv.name, at: len(st.geff), t: stt}
 					return true
 				}
 			}
 		case *ssa.Store:
+			if sv, ok := e.get(st, x.Val).(gStructVal); ok {
+				switch a := e.get(st, x.Addr).(type) {
+				case gRecv:
+					d.storeStruct(st, a.name, sv)
+					return true
+				case gField:
+					d.storeStruct(st, a.recv+"."+a.field, sv)
+					return true
+				}
+			}
 			if a, ok := e.get(st, x.Addr).(gArr); ok {
 				if av, ok := e.get(st, x.Val).(gArrVal); ok {
-					st.geff = append(st.geff, gEffect{kind: "copy", obj: a.obj, off: pC(0), n: pC(int64(av.n * av.esz)), srcObj: av.obj, srcOff: pC(0), srcIdx: av.at, hasSrcIdx: true, pos: pos})
+					st.geff = append(st.geff, gEffect{kind: "copy", obj: a.obj, off: pC(a.base), n: pC(int64(av.n * av.esz)), srcObj: av.obj, srcOff: pC(av.base), srcIdx: av.at, hasSrcIdx: true, pos: pos})
 					return true
 				}
 			}
@@ -489,13 +513,13 @@ func (d *protoDom) streamStep(st *sState, in ssa.Instruction) bool {
 			}
 		case gArr:
 			if _, ok := x.Type().Underlying().(*types.Array); ok {
-				st.vals[x] = gArrVal{v.obj, len(st.geff), v.n, v.esz}
+				st.vals[x] = gArrVal{v.obj, len(st.geff), v.n, v.esz, v.base}
 				return true
 			}
 		case gField:
 			if at, ok := x.Type().Underlying().(*types.Array); ok {
 				if a, ok := d.fieldValue(st, v, at).(gArr); ok {
-					st.vals[x] = gArrVal{a.obj, len(st.geff), a.n, a.esz}
+					st.vals[x] = gArrVal{a.obj, len(st.geff), a.n, a.esz, a.base}
 					return true
 				}
 			}
@@ -518,7 +542,7 @@ func (d *protoDom) streamStep(st *sState, in ssa.Instruction) bool {
 			if av, ok := v.(gArrVal); ok {
 				if at, ok := x.Val.Type().Underlying().(*types.Array); ok {
 					if dst, ok := d.fieldValue(st, a, at).(gArr); ok {
-						st.geff = append(st.geff, gEffect{kind: "copy", obj: dst.obj, off: pC(0), n: pC(int64(av.n * av.esz)), srcObj: av.obj, srcOff: pC(0), srcIdx: av.at, hasSrcIdx: true, pos: pos})
+						st.geff = append(st.geff, gEffect{kind: "copy", obj: dst.obj, off: pC(dst.base), n: pC(int64(av.n * av.esz)), srcObj: av.obj, srcOff: pC(av.base), srcIdx: av.at, hasSrcIdx: true, pos: pos})
 						return true
 					}
 				}
@@ -533,7 +557,7 @@ func (d *protoDom) streamStep(st *sState, in ssa.Instruction) bool {
 			}
 		case gArr:
 			if av, ok := v.(gArrVal); ok {
-				st.geff = append(st.geff, gEffect{kind: "copy", obj: a.obj, off: pC(0), n: pC(int64(av.n * av.esz)), srcObj: av.obj, srcOff: pC(0), srcIdx: av.at, hasSrcIdx: true, pos: pos})
+				st.geff = append(st.geff, gEffect{kind: "copy", obj: a.obj, off: pC(a.base), n: pC(int64(av.n * av.esz)), srcObj: av.obj, srcOff: pC(av.base), srcIdx: av.at, hasSrcIdx: true, pos: pos})
 				return true
 			}
 		case gPtr:
@@ -548,7 +572,7 @@ func (d *protoDom) streamStep(st *sState, in ssa.Instruction) bool {
 		// element of an array value
 		if av, ok := e.get(st, x.X).(gArrVal); ok {
 			if idx, ok := termOf(e.get(st, x.Index)); ok {
-				st.vals[x] = pInt{&pt{op: "ld", args: []*pt{pMul(pC(int64(av.esz)), idx)}, k: av.obj, n: big.NewInt(int64(av.at))}}
+				st.vals[x] = pInt{&pt{op: "ld", args: []*pt{pAdd(pC(av.base), pMul(pC(int64(av.esz)), idx))}, k: av.obj, n: big.NewInt(int64(av.at))}}
 				return true
 			}
 		}
